@@ -123,6 +123,29 @@ fn child_main() -> ! {
         std::process::exit(3);
       }
     };
+    if let Some(gs) = req["globals"].as_array() {
+      // a set of global utility rule files (utilDirs): accepted or rejected as a whole
+      let gs = gs.clone();
+      let r = guarded(std::panic::AssertUnwindSafe(move || {
+        let mut v = vec![];
+        for g in gs {
+          match serde_json::from_value(g) {
+            Ok(x) => v.push(x),
+            Err(e) => return Err(format!("deserialize: {e}")),
+          }
+        }
+        ast_grep_config::DeserializeEnv::<SupportLang>::parse_global_utils(v).map(|_| ()).map_err(|e| err_chain(&e))
+      }));
+      let resp = match r {
+        Err(p) => json!({"load": "panic", "msg": p, "at": last_panic_loc()}),
+        Ok(Err(e)) => json!({"load": "err", "msg": e}),
+        Ok(Ok(())) => json!({"load": "ok"}),
+      };
+      let mut o = stdout.lock();
+      let _ = writeln!(o, "{resp}");
+      let _ = o.flush();
+      continue;
+    }
     let names: Vec<String> = req["names"].as_array().map(|a| a.iter().filter_map(|x| x.as_str().map(String::from)).collect()).unwrap_or_default();
     let resp = observe(req["doc"].as_str().unwrap_or(""), req["src"].as_str(), &names);
     let mut o = stdout.lock();
@@ -158,11 +181,18 @@ impl Worker {
     self.proc = Some((c, i, o));
   }
   /// Ok(response) or Err(description of how the child died on this request)
+  fn ask_globals(&mut self, globals: &[Value]) -> Result<Value, String> {
+    self.ask_raw(json!({"globals": globals}))
+  }
+
   fn ask(&mut self, doc: &str, src: Option<&str>, names: &[String]) -> Result<Value, String> {
+    self.ask_raw(json!({"doc": doc, "src": src, "names": names}))
+  }
+
+  fn ask_raw(&mut self, req: Value) -> Result<Value, String> {
     if self.proc.is_none() {
       self.spawn();
     }
-    let req = json!({"doc": doc, "src": src, "names": names});
     let (_, i, o) = self.proc.as_mut().unwrap();
     let wrote = writeln!(i, "{req}").and_then(|_| i.flush());
     let mut line = String::new();
@@ -1462,6 +1492,72 @@ fn main() {
     eprintln!("oracle 2 done t={:.1}s", rep.elapsed());
   }
 
+  // ---- global utilities (utilDirs): same-node cycles through the rules' own `rule` sections and
+  // through their LOCAL utils must be rejected; the acyclic twin of each set must be accepted
+  let (mut g_sets, mut g_cyclic_rejected, mut g_acyclic_accepted) = (0u64, 0u64, 0u64);
+  {
+    let routes: Vec<(&str, Box<dyn Fn(&str) -> Value>)> = vec![
+      ("matches", Box::new(|t: &str| json!({"matches": t}))),
+      ("all", Box::new(|t: &str| json!({"all": [{"matches": t}, {"kind": "number"}]}))),
+      ("any", Box::new(|t: &str| json!({"any": [{"kind": "number"}, {"matches": t}]}))),
+      ("not", Box::new(|t: &str| json!({"kind": "number", "not": {"matches": t}}))),
+      ("nthChild.ofRule", Box::new(|t: &str| json!({"nthChild": {"position": 1, "ofRule": {"matches": t}}}))),
+      ("matches+sibling-key", Box::new(|t: &str| json!({"matches": "leaf-free", "not": {"matches": t}}))),
+    ];
+    // where the reference sits: in the global rule's `rule`, or in a local util that `rule` uses
+    let places = ["rule", "local-util", "local-util-chain"];
+    let mut w = Worker::new();
+    for n in 1..=(if args.thorough() { 3 } else { 2 }) {
+      let mut combos: Vec<Vec<(usize, usize)>> = vec![vec![]];
+      for _ in 0..n {
+        combos = combos.into_iter().flat_map(|c| (0..routes.len()).flat_map(move |r| (0..3).map(move |p| (r, p))).map(move |x| { let mut c2 = c.clone(); c2.push(x); c2 })).collect();
+      }
+      for combo in combos {
+        for cyclic in [true, false] {
+          let mut globals = vec![];
+          for (i, (r, p)) in combo.iter().enumerate() {
+            // the acyclic twin sends the last edge to a leaf utility instead of closing the cycle
+            let target = if i + 1 == n && !cyclic { "leaf".to_string() } else { format!("g{}", (i + 1) % n) };
+            let edge = routes[*r].1(&target);
+            let mut g = json!({"id": format!("g{i}"), "language": "JavaScript"});
+            match places[*p] {
+              "rule" => g["rule"] = edge,
+              "local-util" => {
+                g["rule"] = json!({"matches": "loc"});
+                g["utils"] = json!({"loc": edge});
+              }
+              _ => {
+                g["rule"] = json!({"matches": "loc1"});
+                g["utils"] = json!({"loc1": {"all": [{"matches": "loc2"}]}, "loc2": edge});
+              }
+            }
+            globals.push(g);
+          }
+          globals.push(json!({"id": "leaf", "language": "JavaScript", "rule": {"kind": "number"}}));
+          globals.push(json!({"id": "leaf-free", "language": "JavaScript", "rule": {"kind": "number"}}));
+          g_sets += 1;
+          let label: Vec<String> = combo.iter().map(|(r, p)| format!("{}@{}", routes[*r].0, places[*p])).collect();
+          match w.ask_globals(&globals) {
+            Err(how) => rep.violation(&format!("global-utils:load-crash:{how}"), json!({"oracle": 1, "globals": globals, "route": label})),
+            Ok(resp) => match (cyclic, resp["load"].as_str().unwrap_or("")) {
+              (_, "panic") => rep.violation("global-utils:load-panic", json!({"oracle": 1, "globals": globals, "route": label, "panic": resp["msg"]})),
+              (true, "ok") => {
+                let via_local = combo.iter().any(|(_, p)| *p > 0);
+                rep.violation(
+                  &format!("accepted:global-util-cycle:{}", if via_local { "through-a-local-util" } else { "through-rule-sections-only" }),
+                  json!({"oracle": 1, "globals": globals, "route": label, "broken_conditions": "a global utility requires itself on the same node"}),
+                );
+              }
+              (true, _) => g_cyclic_rejected += 1,
+              (false, "ok") => g_acyclic_accepted += 1,
+              (false, _) => rep.violation("global-utils:acyclic-set-rejected", json!({"oracle": 1, "globals": globals, "route": label, "error": resp["msg"]})),
+            },
+          }
+        }
+      }
+    }
+  }
+
   // ---- oracle 1 over every document at distance one
   // distinct documents only: a document reachable from two bases is judged once, at the first
   // base in enumeration order (decided sequentially, so the choice does not depend on timing).
@@ -1633,6 +1729,7 @@ fn main() {
     "broken_condition_classes": tag_counts,
     "distinct_rejection_messages": errors.len(),
     "rejection_messages": errors,
+    "global_utility_sets": g_sets, "global_utility_cycles_rejected": g_cyclic_rejected, "global_utility_acyclic_twins_accepted": g_acyclic_accepted,
     "dimensions": {"rule": d.r, "utils": d.u, "constraints": d.k, "transform": d.t, "rewriters": d.w, "fix_content": d.fc, "fix_form": d.ff},
     "same_node_routes": ROUTES,
     "samples": samples.take(),
